@@ -622,6 +622,7 @@ package ast
 //@   assigns th
 //@   ensures [call.summary] th == app(old(th), evWalk(v, node))
 //@   ensures [body.pruned] wv(v, node, old(th)) == nil ==> th == hv(v, node, old(th))
+//@   ensures [body.final-visit-nil] wv(v, node, old(th)) != nil ==> exists h int :: th == app(h, evVisit(wv(v, node, old(th)), nil))
 //@   ensures [body.FuncDecl] istype(node, *FuncDecl) && wv(v, node, old(th)) != nil ==> th == app(
 //@        wk(( node.(*FuncDecl).Shadow ? hv(v, node, old(th)) :
 //@              wk(wk(wk(wk(hv(v, node, old(th)), wv(v, node, old(th)), node.(*FuncDecl).Doc != nil, Node(node.(*FuncDecl).Doc)),
